@@ -709,6 +709,388 @@ def d5_reductions(ck, mod, fn, fused):
     return n
 
 
+# ---------------------------------------------------------------------------
+# D2 `.value`: an uninitialised allocation that is NOT simply bound to a local name
+#
+# check_empty_allocs (sa/patterns.py) decides `name = np.empty(...)`: every read of `name` is dominated by a
+# full write of it.  An allocation in any other position has no name whose writes could be looked for - its
+# value is consumed where it stands.  Necessary condition of "no routine reads memory it has not initialised":
+# the value of every np.empty / np.empty_like / np.ndarray call (whatever numpy is called in the module)
+#   * is bound to ONE local name - directly, as an arm of a conditional expression or through a view
+#     (.reshape / .T / basic index) - and then obeys the fully-written-before-read rule; or
+#   * is the out= operand of an unmasked numpy call (a full write; the call's result is initialised); or
+#   * only has its metadata read (.shape / len / np.zeros_like(...)) or is discarded.
+# It is READ - VIOLATION, naming the consuming construct - when it is an operand of an arithmetic / comparison
+# operator, the receiver of an ndarray method that reads cells (.astype, .copy, .sum ...), an argument of a
+# numpy / builtin function that reads its argument, the iterable of a loop, a truth value, or the value a PUBLIC
+# function returns (the caller receives heap contents).  Anything else - handed to a function of the package
+# or an unknown callee, parked in an attribute / container, returned by a private helper whose callers may fill
+# it - is ANALYSIS-INCOMPLETE: the buffer leaves what the rule follows.
+
+_NP_UNINIT = {'empty', 'empty_like', 'ndarray'}
+_ARR_META = {'shape', 'dtype', 'size', 'ndim', 'nbytes', 'itemsize', 'strides', 'flags'}
+_ARR_VIEW_ATTRS = {'T', 'mT', 'real', 'imag'}
+_ARR_VIEW_METHODS = {'reshape', 'view', 'transpose', 'swapaxes', 'squeeze', 'ravel'}
+_ARR_READ_METHODS = {'astype', 'copy', 'sum', 'mean', 'max', 'min', 'argmax', 'argmin', 'cumsum', 'cumprod', 'prod',
+                     'std', 'var', 'dot', 'tolist', 'tobytes', 'tostring', 'flatten', 'any', 'all', 'nonzero', 'round',
+                     'clip', 'argsort', 'item', 'take', 'repeat', 'trace', 'diagonal', 'ptp', 'conj', 'conjugate',
+                     'searchsorted', 'choose', 'compress', 'dump', 'dumps', 'tofile', 'byteswap', 'sort', 'partition',
+                     'argpartition', '__array__'}
+_NP_META_FUNCS = {'np.shape', 'np.ndim', 'np.size', 'np.empty_like', 'np.zeros_like', 'np.ones_like', 'np.full_like',
+                  'np.result_type', 'np.iscomplexobj', 'np.isrealobj', 'len', 'isinstance', 'type', 'id'}
+_NP_VIEW_FUNCS = {'np.asarray', 'np.asanyarray', 'np.ascontiguousarray', 'np.asfortranarray', 'np.atleast_1d',
+                  'np.atleast_2d', 'np.atleast_3d', 'np.reshape', 'np.ravel', 'np.transpose', 'np.squeeze',
+                  'np.swapaxes', 'np.moveaxis', 'np.expand_dims', 'np.broadcast_to'}
+_BUILTIN_READERS = {'sum', 'min', 'max', 'list', 'tuple', 'set', 'sorted', 'any', 'all', 'float', 'int', 'bool', 'abs',
+                    'complex', 'str', 'repr', 'print', 'enumerate', 'zip', 'iter', 'next', 'map', 'filter', 'round',
+                    'frozenset', 'dict', 'reversed', 'hash', 'bytes', 'bytearray'}
+_EXT_READER_ROOTS = ('numpy', 'scipy', 'math', 'cmath', 'numexpr', 'bottleneck')
+
+
+def _local_import(fi, head):
+    """Dotted external name a function-level `import m [as head]` / `from m import x [as head]` binds `head` to,
+    when import statements are its only bindings in the function; else None."""
+    got = set()
+    for s in walk_local(fi.fn):
+        if isinstance(s, ast.Import):
+            for a in s.names:
+                if (a.asname or a.name.split('.')[0]) == head:
+                    got.add(a.name if a.asname else a.name.split('.')[0])
+        elif isinstance(s, ast.ImportFrom) and not s.level:
+            for a in s.names:
+                if (a.asname or a.name) == head:
+                    got.add('%s.%s' % (s.module, a.name))
+        elif isinstance(s, (ast.Assign, ast.AugAssign, ast.AnnAssign, ast.For, ast.With, ast.NamedExpr)):
+            tgs = s.targets if isinstance(s, ast.Assign) else [getattr(s, 'target', None)] if not isinstance(s, ast.With) \
+                else [i.optional_vars for i in s.items]
+            if any(t is not None and head in target_names(t) for t in tgs):
+                return None
+    if head in params(fi.fn) or len(got) != 1:
+        return None
+    return got.pop()
+
+
+def _np_callee(res, mod, fi, call):
+    """'np.<dotted rest>' if the callee of `call` is a function of numpy under whatever name the module (or the
+    function itself) imported it (np.empty, numpy.empty, `from numpy import empty`), the plain builtin name for a
+    builtin, else None."""
+    nm = call_name(call)
+    if not nm:
+        return None
+    head = nm.split('.')[0]
+    if head in fi.rd.locals:
+        ext = _local_import(fi, head)       # a parameter / local variable of that name is not the module
+        if ext is None:
+            return None
+        parts = (ext + nm[len(head):]).split('.')
+        return 'np.' + '.'.join(parts[1:]) if parts[0] == 'numpy' and len(parts) > 1 else None
+    try:
+        t = res.resolve_dotted(mod.rel, nm)
+    except Exception:
+        t = None
+    if t is not None and t.kind == 'ext':
+        parts = (t.ext or '').split('.')
+        if parts[0] == 'numpy' and len(parts) > 1:
+            return 'np.' + '.'.join(parts[1:])
+        return None
+    if t is None:
+        if head in ('np', 'numpy') and '.' in nm:
+            return 'np.' + nm.split('.', 1)[1]
+        if '.' not in nm:
+            return nm
+    return None
+
+
+def _ext_reader(res, mod, fi, call):
+    """The callee is a function of numpy / scipy / math (reads its array arguments, keeps none) or a reading builtin."""
+    nm = call_name(call) or ''
+    head = nm.split('.')[0]
+    if not nm or head in fi.rd.locals:
+        return False
+    try:
+        t = res.resolve_dotted(mod.rel, nm)
+    except Exception:
+        t = None
+    if t is not None:
+        return t.kind == 'ext' and (t.ext or '').split('.')[0] in _EXT_READER_ROOTS
+    return nm in _BUILTIN_READERS or head in ('np', 'numpy', 'scipy', 'math')
+
+
+def _is_uninit_alloc(res, mod, fi, call):
+    cn = _np_callee(res, mod, fi, call)
+    return bool(cn) and cn.startswith('np.') and cn[3:] in _NP_UNINIT
+
+
+def _uninit_value_flow(res, mod, fn, fi, call, public):
+    """Where the value of the uninitialised allocation `call` goes: (verdict, node, text) with verdict one of
+    'handled' (plain `target = np.empty(...)`: check_empty_allocs decides it), 'bind' (node = the binding statement,
+    text = the local name), 'ok', 'read', 'unknown'."""
+    x = call
+    direct = True           # x is still the allocation call itself (not a view / conditional arm of it)
+    for _ in range(12):
+        p = mod.parent.get(x)
+        if p is None:
+            return 'unknown', call, 'position of the allocation not located'
+        if isinstance(p, ast.Expr):
+            return 'ok', p, 'the value is discarded'
+        if isinstance(p, ast.Assign) and p.value is x:
+            if direct and (call_name(call) or '') in UNINIT_ALLOCS:
+                return 'handled', p, ''
+            if len(p.targets) == 1 and isinstance(p.targets[0], ast.Name):
+                return 'bind', p, p.targets[0].id
+            return 'unknown', p, 'the uninitialised buffer is stored into `%s`' % u(p.targets[0])[:60]
+        if isinstance(p, ast.AnnAssign) and p.value is x:
+            if isinstance(p.target, ast.Name):
+                return 'bind', p, p.target.id
+            return 'unknown', p, 'the uninitialised buffer is stored into `%s`' % u(p.target)[:60]
+        if isinstance(p, ast.AugAssign) and p.value is x:
+            return 'read', p, 'it is the right-hand operand of `%s`' % u(p)[:80]
+        if isinstance(p, ast.IfExp):
+            if p.test is x:
+                return 'read', p, 'its truth value is tested'
+            x, direct = p, False
+            continue
+        if isinstance(p, ast.Attribute) and p.value is x:
+            if p.attr in _ARR_META:
+                return 'ok', p, 'only .%s of the buffer is read' % p.attr
+            if p.attr in _ARR_VIEW_ATTRS:
+                x, direct = p, False
+                continue
+            pp = mod.parent.get(p)
+            if isinstance(pp, ast.Call) and pp.func is p:
+                if p.attr == 'fill':
+                    return 'ok', pp, 'the buffer is filled at once (and dropped)'
+                if p.attr in _ARR_VIEW_METHODS:
+                    x, direct = pp, False
+                    continue
+                if p.attr in _ARR_READ_METHODS:
+                    return 'read', pp, 'ndarray.%s reads every cell of its receiver' % p.attr
+            return 'unknown', p, 'attribute .%s of the uninitialised buffer' % p.attr
+        if isinstance(p, ast.Subscript):
+            if p.value is x and isinstance(p.ctx, ast.Load):
+                x, direct = p, False
+                continue
+            if p.value is not x:
+                return 'read', p, 'it is used as an index'
+            return 'unknown', p, 'store into the anonymous buffer'
+        if isinstance(p, (ast.BinOp, ast.UnaryOp, ast.Compare, ast.BoolOp)):
+            return 'read', p, 'it is an operand of `%s`' % u(p)[:80]
+        if isinstance(p, (ast.If, ast.While, ast.Assert)):
+            return 'read', p, 'its truth value is tested'
+        if isinstance(p, (ast.For, ast.AsyncFor, ast.comprehension)):
+            if p.iter is x:
+                return 'read', p.iter, 'it is iterated over'
+            return 'unknown', x, 'uninitialised buffer inside a loop header'
+        if isinstance(p, (ast.Return, ast.Yield, ast.YieldFrom)) or (
+                isinstance(p, ast.Tuple) and isinstance(mod.parent.get(p), ast.Return)):
+            if public:
+                return 'read', p if not isinstance(p, ast.Tuple) else mod.parent.get(p), \
+                    'the public routine returns it: the caller receives whatever the heap held'
+            return 'unknown', p, 'a private helper returns the uninitialised buffer; whether every caller writes it ' \
+                                 'fully before reading is not decided'
+        if isinstance(p, ast.keyword) or (isinstance(p, ast.Call) and x in p.args):
+            c = p if isinstance(p, ast.Call) else mod.parent.get(p)
+            if not isinstance(c, ast.Call):
+                return 'unknown', p, 'keyword outside a call'
+            cn = _np_callee(res, mod, fi, c)
+            if isinstance(p, ast.keyword) and p.arg == 'out':
+                if cn and cn.startswith('np.'):
+                    if kwarg(c, 'where') is None:
+                        return 'ok', c, 'out= of the unmasked %s: every cell is written by the call' % cn
+                    if direct and (call_name(call) or '') in UNINIT_ALLOCS and (call_name(c) or '').startswith(
+                            ('np.', 'numpy.')):
+                        return 'handled', c, ''          # C19.D1.masked-ufunc reports it
+                    return 'read', c, 'out= of the MASKED %s: the cells where the mask is false keep the heap contents' % cn
+                return 'unknown', c, 'out= buffer of `%s`' % (call_name(c) or u(c.func))[:60]
+            if cn in _NP_META_FUNCS:
+                return 'ok', c, '%s reads only the shape / type of its argument' % cn
+            if cn in _NP_VIEW_FUNCS and c.args and c.args[0] is x:
+                x, direct = c, False
+                continue
+            if _ext_reader(res, mod, fi, c):
+                return 'read', c, '%s reads the cells of its argument' % (call_name(c) or '?')
+            return 'unknown', c, 'the uninitialised buffer is handed to `%s`' % (call_name(c) or u(c.func))[:60]
+        if isinstance(p, ast.Starred):
+            return 'read', p, 'it is unpacked'
+        return 'unknown', p, 'the uninitialised buffer is used inside `%s`' % u(p)[:60]
+    return 'unknown', call, 'value chain too long'
+
+
+def d2_uninit_values(ck, mods):
+    from ..patterns import _empty_fully_written
+    rule = 'C19.D2.empty-before-read.value'
+    res, _ = shared(ck.repo)
+    n = 0
+    for mod in mods:
+        for q, fn in mod.functions.items():
+            calls = [c for c in walk_local(fn) if isinstance(c, ast.Call) and call_name(c)]
+            if not calls:
+                continue
+            fi = finfo(mod, fn)
+            calls = [c for c in calls if _is_uninit_alloc(res, mod, fi, c)]
+            leaf = q.split('.')[-1]
+            public = '<locals>' not in q and not getattr(fn, 'cy_cdef', False) and (
+                not leaf.startswith('_') or (leaf.startswith('__') and leaf.endswith('__')))
+            for c in calls:
+                n += 1
+                ck.analysed(mod, fn)
+                v, node, text = _uninit_value_flow(res, mod, fn, fi, c, public)
+                what = u(mod.enclosing_stmt(c))[:120]
+                if v == 'handled':
+                    ck.ok(rule, mod, c, what, 'plainly bound: decided by the fully-written-before-read rule')
+                elif v == 'bind':
+                    try:
+                        ok, why = _empty_fully_written(mod, fn, node, text)
+                    except Exception as e:          # the binding is not a CFG statement the helper knows
+                        ck.missing(rule, '%s %s::%s `%s`: reads of `%s` not decided (%s)' % (
+                            mod.loc(c), mod.rel, q, what[:80], text, type(e).__name__))
+                        continue
+                    ck.check(ok, 'C19.D2.empty-before-read', mod, node, q, u(node), why, why)
+                elif v == 'ok':
+                    ck.ok(rule, mod, c, what, text)
+                elif v == 'read':
+                    ck.bad(rule, mod, node if hasattr(node, 'lineno') else c, q,
+                           'value of the uninitialised allocation `%s`' % u(c)[:80],
+                           '`%s` allocates without initialising, and %s.  No write can come in between, so the '
+                           'result (or at least the floating-point flags / warnings of the operation) follows what '
+                           'the process computed and freed before - use np.zeros / np.full, or bind the buffer to a '
+                           'name and write it fully first' % (u(c)[:80], text))
+                else:
+                    ck.missing(rule, '%s %s::%s `%s`: %s; whether every cell is written before it is read is not '
+                               'decided' % (mod.loc(c), mod.rel, q, what[:80], text))
+    return n
+
+
+# ---------------------------------------------------------------------------
+# D2 `.bcast-root`: a broadcast fills the buffer on every rank EXCEPT the root
+#
+# check_empty_allocs counts `comm.Bcast(buf, root=r)` as a full write of `buf`.  That is what the call is on the
+# receiving ranks; on rank r it is a SEND: the call reads every cell of `buf` and ships it to everybody.  So an
+# uninitialised allocation that reaches the Bcast must sit on a path only ranks other than r take (the arm of a
+# test `<rank> == r` / `<rank> != r` that excludes the root), or the root must write the whole buffer first.
+# The rank is located by role - the operand compared with the very expression passed as root= - and must be
+# a rank query (`*.rank()` / `*.Get_rank()` / `*.rank`); any other shape of the guard is ANALYSIS-INCOMPLETE.
+
+_RANK_LEAVES = ('rank', 'Get_rank')
+
+
+def _is_rank_query(e):
+    if isinstance(e, ast.Call) and not e.args and not e.keywords:
+        return (call_name(e) or '').split('.')[-1] in _RANK_LEAVES
+    if isinstance(e, ast.Attribute):
+        return e.attr == 'rank'
+    return False
+
+
+def _rank_vs_root(fi, test, polarity, root_text):
+    """'root' / 'others' / None: the ranks on which `test` has truth value `polarity`, as far as a comparison
+    of a rank query with the broadcast's root expression says."""
+    from ..patterns import Cmp, conjuncts
+    try:
+        t = fi.expand(test)
+    except Exception:
+        t = test
+    cs = conjuncts(t, polarity)
+    if cs is None:
+        return None
+    for c in cs:
+        if not isinstance(c, Cmp):
+            continue
+        for a, b in ((c.lhs, c.rhs), (c.rhs, c.lhs)):
+            try:
+                same = fi.xu(b) == root_text or u(b) == root_text
+            except Exception:
+                same = u(b) == root_text
+            if same and _is_rank_query(a):
+                if c.op is ast.Eq:
+                    return 'root'
+                if c.op in (ast.NotEq, ast.Lt, ast.Gt):
+                    return 'others'
+    return None
+
+
+def d2_bcast_root(ck, mods):
+    rule = 'C19.D2.empty-before-read.bcast-root'
+    res, _ = shared(ck.repo)
+    n = 0
+    for mod in mods:
+        for q, fn in mod.functions.items():
+            bcasts = [c for c in walk_local(fn) if isinstance(c, ast.Call) and isinstance(c.func, ast.Attribute)
+                      and c.func.attr == 'Bcast' and c.args and isinstance(c.args[0], ast.Name)]
+            if not bcasts:
+                continue
+            fi = finfo(mod, fn)
+            for c in bcasts:
+                buf = c.args[0]
+                st = fi.stmt(c)
+                if st is None:
+                    continue
+                root = kwarg(c, 'root') or (c.args[1] if len(c.args) > 1 else None)
+                try:
+                    root_text = fi.xu(root) if root is not None else '0'
+                except Exception:
+                    root_text = u(root)
+                try:
+                    sites = fi.defs_of_use(buf)
+                except Exception:
+                    sites = ()
+                for site in sites:
+                    if site in ('PARAM', 'UNBOUND') or not isinstance(site, (ast.Assign, ast.AnnAssign)):
+                        continue
+                    allocs = [a for a in walk_expr(site.value) if isinstance(a, ast.Call)
+                              and _is_uninit_alloc(res, mod, fi, a)] if site.value is not None else []
+                    for a in allocs:
+                        v, node, _t = _uninit_value_flow(res, mod, fn, fi, a, False)
+                        if v not in ('handled', 'bind') or node is not site:
+                            continue        # the allocation is not what the name is bound to
+                        n += 1
+                        ck.analysed(mod, fn)
+                        what = '%s  ->  %s' % (u(site)[:70], u(c)[:60])
+                        # conditions under which the allocation runs: arms of conditional expressions around it,
+                        # then the branch assumptions that dominate the binding statement
+                        conds = []
+                        x = a
+                        while x is not site:
+                            p = mod.parent.get(x)
+                            if p is None:
+                                break
+                            if isinstance(p, ast.IfExp) and p.test is not x:
+                                conds.append((p.test, p.body is x))
+                            x = p
+                        for nd in fi.cfg.nodes:
+                            if isinstance(nd, Assume) and fi.cfg.dominates(nd, site):
+                                conds.append((nd.test, nd.polarity))
+                        where = {_rank_vs_root(fi, t, pol, root_text) for t, pol in conds} - {None}
+                        if 'root' in where and 'others' not in where:
+                            ck.bad(rule, mod, site, q, 'uninitialised buffer allocated on the root of `%s`' % u(c)[:60],
+                                   '`%s` runs on the rank that equals root=%s, and nothing writes the buffer before `%s`: '
+                                   'on the root a Bcast SENDS its buffer, so every rank receives whatever the root\'s heap '
+                                   'held - the result depends on what that process computed and freed before'
+                                   % (u(site)[:80], root_text, u(c)[:60]))
+                        elif 'others' in where and 'root' not in where:
+                            ck.ok(rule, mod, site, what, 'the allocation runs only on ranks other than root=%s: for them the '
+                                  'Bcast is a full write of the buffer' % root_text)
+                        else:
+                            # unguarded allocation: the root must overwrite the whole buffer before sending
+                            full = []
+                            for s in fi.cfg.nodes:
+                                if isinstance(s, ast.Assign) and any(
+                                        isinstance(t, ast.Subscript) and isinstance(t.value, ast.Name) and t.value.id == buf.id
+                                        and _is_whole(t) for t in s.targets) and fi.cfg.reachable(site, s) \
+                                        and fi.cfg.reachable(s, st):
+                                    g = {_rank_vs_root(fi, nd.test, nd.polarity, root_text) for nd in fi.cfg.nodes
+                                         if isinstance(nd, Assume) and fi.cfg.dominates(nd, s)} - {None}
+                                    if g == {'root'} or fi.cfg.dominates(s, st):
+                                        full.append(s)
+                            if full:
+                                ck.ok(rule, mod, site, what, 'the root stores the whole buffer (`%s`) before it sends' % u(full[0])[:60])
+                            else:
+                                ck.missing(rule, '%s %s::%s `%s`: on which ranks the uninitialised allocation runs (relative to '
+                                           'root=%s) is not decided; on the root the Bcast reads the buffer' % (
+                                               mod.loc(site), mod.rel, q, what[:100], root_text))
+    return n
+
+
 def public_functions(mod):
     out = []
     for q, fn in mod.functions.items():
@@ -1870,6 +2252,10 @@ def check(ck):
         n2 += check_empty_allocs(ck, 'C19.D2.empty-before-read', mod)
     ck.floor('C19.D1.masked-ufunc', n1, 6, 'masked ufunc calls in the package')
     ck.floor('C19.D2.empty-before-read', n2, 3, 'np.empty allocations in the package')
+    nv = d2_uninit_values(ck, repo.all_modules())
+    ck.floor('C19.D2.empty-before-read.value', nv, 3, 'uninitialised allocations in the package (any position, any spelling)')
+    nb = d2_bcast_root(ck, repo.all_modules())
+    ck.floor('C19.D2.empty-before-read.bcast-root', nb, 1, 'uninitialised receive buffers of a broadcast')
     # D3 / D5: kernels
     nz = npr = 0
     for rel in PYX_FILES:
